@@ -102,6 +102,15 @@ def run_case(case, drv):
                 s = qt.x_to_s(xv)
                 e_is = F(qt.evaluate_Ising(J, hh, cc, s))
                 e_q = G.quad_fr(M, x) + const
+                # the same energy evaluated independently of the package's evaluator, in exact arithmetic on the returned (J, h, c)
+                sv = [1 - 2 * int(t) for t in x]
+                e_ind = sum(impl[1][i][j] * sv[i] * sv[j] for i in range(r) for j in range(r)) + sum(impl[2][i] * sv[i] for i in range(r)) + impl[3]
+                if e_ind != e_q:
+                    res.fail("q2i:energy", f"Ising energy of the returned (J, h, c) = {fs(e_ind)} != QUBO energy {fs(e_q)} at x={list(x)}")
+                    break
+                if [int(t) for t in s] != sv:
+                    res.fail("q2i:x_to_s", f"x_to_s({list(x)}) = {list(s)}")
+                    break
                 if e_is != e_q:
                     res.fail("q2i:energy", f"Ising energy {fs(e_is)} != QUBO energy {fs(e_q)} at x={list(x)}")
                     break
